@@ -91,6 +91,10 @@ class ChunkedReader:
         chunk_size, *chunk_ext = line.split(b";", 1)
         if chunk_ext:
             chunk_size = chunk_size.rstrip(b" \t")
+            # a bare CR or LF (or NUL) inside the extension is a line
+            # terminator to lenient peers: never skip over it
+            if any(n in b"\r\n\0" for n in chunk_ext[0]):
+                raise InvalidChunkSize(line)
         if any(n not in b"0123456789abcdefABCDEF" for n in chunk_size):
             raise InvalidChunkSize(chunk_size)
         if len(chunk_size) == 0:
